@@ -212,6 +212,7 @@ impl GenericsAnalyzer {
                 self.extract_deps_from_type(input_sig, type_reference.elem.as_ref())
             }
             syn::Type::Paren(paren) => self.extract_deps_from_type(input_sig, paren.elem.as_ref()),
+            syn::Type::Group(group) => self.extract_deps_from_type(input_sig, group.elem.as_ref()),
             ty => {
                 self.deps_with_generics(FnDeps::Concrete(Box::new(ty.clone())), &input_sig.generics)
             }
